@@ -142,6 +142,8 @@ def gen_func_code(f, lab):
         it += [("ref", ok), "JUMPI"] + _panic(1) + [("label", ok), "STOP", ("label", bad)] + _panic(1)
     elif k == "roll":                   # vm.roll(K)  -- no storage change
         it += _cheat("roll(uint256)", [("push", K)], lab) + ["STOP"]
+    elif k == "roll_if":                # require(slot == a); vm.roll(K)
+        it += require([("push", s), "SLOAD", ("push", a), "EQ"]) + _cheat("roll(uint256)", [("push", K)], lab) + ["STOP"]
     elif k == "roll_arg":               # vm.roll(arg)
         it += _cheat("roll(uint256)", [("push", 4), "CALLDATALOAD"], lab) + ["STOP"]
     elif k == "fee":                    # vm.fee(K)
